@@ -674,6 +674,15 @@ static pid_t do_wait(pid_t pid, int *status, int options, struct rusage *ru)
 			errno = EINTR;
 			return -1;
 		}
+		if (e && e->action == A_ERRNO) {
+			/* the child's status is lost (ECHILD: SIGCHLD ignored by whoever
+			 * started the tool, or the child reaped elsewhere) */
+			fire(e);
+			trace("T wait %ld = -%ld", counters[C_WAIT], e->arg);
+			counters[C_WAIT]++;
+			errno = (int)e->arg;
+			return -1;
+		}
 	}
 	pid_t r = (pid_t)syscall(SYS_wait4, pid, status, options, ru);
 	if (armed) {
